@@ -36,6 +36,9 @@ func GenScript(r *hx.Rand, kinds []string, nops int) []string {
 	if r.Chance(1, 3) {
 		cfg.Index = "dev"
 	}
+	if kind != "ac" && Corruption == 0 && r.Chance(1, 4) {
+		cfg.VCache = true
+	}
 	bs := bm.BlockSize()
 	script := []string{cfg.Line()}
 	sizes := []int{0, 1, bm.Sector - 1, bm.Sector, bm.Sector + 1, bs / 2, bs - 1, bs, bs, bs + 1, 2, 3}
@@ -106,6 +109,15 @@ func GenScript(r *hx.Rand, kinds []string, nops int) []string {
 				script = append(script, fmt.Sprintf("run %d", open[j]))
 				open = append(open[:j], open[j+1:]...)
 			}
+		case x < 48 && kind != "ac":
+			// a read with an upload started in the gap between its read-locked lookup and its write-locked refresh
+			script = append(script, fmt.Sprintf("getx %d %d %d %d %s none", r.Intn(total), nextOp, r.Intn(total), r.Intn(3), chunkings[r.Intn(len(chunkings))]))
+			if r.Chance(2, 3) {
+				script = append(script, fmt.Sprintf("run %d", nextOp))
+			} else {
+				open = append(open, nextOp)
+			}
+			nextOp++
 		case x < 70:
 			script = append(script, fmt.Sprintf("get %d %s", r.Intn(total), []string{"s", "s", "s", "r", "c", "w", "a", "p", "d", "x"}[r.Intn(10)]))
 		case x < 85:
@@ -160,8 +172,16 @@ func genAging(r *hx.Rand, script []string, kind string, insts []string, bm bmx.C
 		op++
 	}
 	touch := func() {
+		if bm.Alloc == "dev" && Corruption == 0 && r.Chance(1, 3) {
+			// a device fault during the touch: the refresh copy or the caller's read fails
+			script = append(script, fmt.Sprintf("ioerr %s %d", []string{"w", "r"}[r.Intn(2)], r.Intn(2)))
+		}
 		for _, o := range r.Perm(2) {
-			switch r.Intn(4) {
+			switch r.Intn(5) {
+			case 4:
+				// the read gives way to a block-filling upload at its lock hand-over
+				script = append(script, fmt.Sprintf("getx %d %d %d 0 w none", o, op, 2+r.Intn(nfill)), fmt.Sprintf("run %d", op))
+				op++
 			case 0:
 				script = append(script, fmt.Sprintf("fm %d", o))
 			case 1:
@@ -206,6 +226,11 @@ func genTwoCopies(r *hx.Rand, cfg Config, insts []string) []string {
 	for b == a {
 		b = insts[r.Intn(len(insts))]
 	}
+	if r.Chance(1, 2) {
+		// the second name below the first: a reader under it consults the first name's entry first
+		pair := [][2]string{{"-", "a"}, {"a", "a/b"}, {"a", "a/b/c"}, {"a/b", "a/b/c"}, {"a-", "a-/b"}}[r.Intn(5)]
+		a, b = pair[0], pair[1]
+	}
 	small := r.PickInt(1, 2, cfg.BM.Sector, bs/2)
 	if small > bs {
 		small = bs
@@ -225,21 +250,35 @@ func genTwoCopies(r *hx.Rand, cfg Config, insts []string) []string {
 		}
 	}
 	touch := func(o int) {
-		if r.Chance(1, 2) {
+		switch r.Intn(3) {
+		case 0:
 			script = append(script, fmt.Sprintf("get %d", o))
-		} else {
+		case 1:
 			script = append(script, fmt.Sprintf("fm %d", o))
+		default:
+			// the read gives way to a block-filling upload between its two locked phases
+			script = append(script, fmt.Sprintf("getx %d %d %d 0 w none", o, op, 2+r.Intn(3)), fmt.Sprintf("run %d", op))
+			op++
 		}
 	}
 	put(0)
 	fills(cfg.BM.Cur + cfg.BM.New + r.Range(0, 1)) // the first copy becomes old
 	put(1)                                         // second copy under the other name
 	fills(cfg.BM.Cur + cfg.BM.New + r.Range(0, 1)) // the second copy becomes old too
-	touch(0)
-	touch(0)
-	fills(cfg.BM.Old)
-	touch(0)
-	touch(1)
+	if r.Chance(1, 2) {
+		touch(0)
+		touch(0)
+		fills(cfg.BM.Old)
+		touch(0)
+		touch(1)
+	} else {
+		// read under the second name: its least specific entry is the first, older copy
+		touch(1)
+		touch(1)
+		fills(cfg.BM.Old)
+		touch(1)
+		touch(0)
+	}
 	return script
 }
 
